@@ -5,7 +5,9 @@ import (
 	"bytes"
 	"encoding/hex"
 	"fmt"
+	"io"
 	"sync/atomic"
+	"testing/iotest"
 
 	"github.com/datastax/go-cassandra-native-protocol/frame"
 	"github.com/datastax/go-cassandra-native-protocol/primitive"
@@ -85,6 +87,41 @@ func main() {
 		alts := [][]byte{want[0]}
 		if alt := refwire.EncodeAll(orig, refwire.Opt{SpecPrefixOrder: true, NoGlobalSpec: true}); !bytes.Equal(alt[0], want[0]) {
 			alts = append(alts, alt[0])
+		}
+		// ... also when the body travels compressed (versions with body compression; STARTUP is never compressed):
+		// literal-only LZ4 and Snappy streams written from the format descriptions, which the library's own
+		// compressors do not emit. Two such frames back to back on one *bytes.Buffer, then one from a reader that
+		// returns short reads: each must decode to the frame and leave the next one intact.
+		if v := orig.Header.Version; v != gen.V5 && fcheck.Compressible(orig) && atomic.LoadInt64(&evals)%3 == 0 {
+			hl := 9
+			if v == gen.V2 {
+				hl = 8
+			}
+			for ci, comp := range []func([]byte) []byte{refwire.LZ4Literal, refwire.SnappyLiteral} {
+				name := [...]string{"LZ4", "Snappy"}[ci]
+				cc := fcheck.Codec([...]primitive.Compression{primitive.CompressionLz4, primitive.CompressionSnappy}[ci])
+				cw := refwire.WithCompressedBody(want[0], hl, comp)
+				stream := bytes.NewBuffer(append(append([]byte{}, cw...), cw...))
+				for k, src := range []io.Reader{stream, stream, iotest.HalfReader(bytes.NewReader(cw))} {
+					how := [...]string{"first of two frames on a bytes.Buffer", "second of two frames on a bytes.Buffer", "a reader returning short reads"}[k]
+					var dec *frame.Frame
+					var err error
+					if pv, site := vlib.Catch(func() { dec, err = cc.DecodeFrame(src) }); pv != nil {
+						c.Violation(map[string]string{"kind": "spec-bytes-panic", "site": site, "compression": name}, fmt.Sprintf("%s: DecodeFrame panics on a specification-formatted frame with a %s body (%s): %v", cs.Name, name, how, pv), cs.Name)
+						break
+					}
+					atomic.AddInt64(&refDecoded, 1)
+					if err != nil {
+						c.Violation(map[string]string{"kind": "spec-bytes(compressed body)-rejected", "compression": name, "source": how}, fmt.Sprintf("%s: specification-formatted frame with a literal-only %s body does not decode (%s): %v", cs.Name, name, how, err), cs.Name)
+						break
+					}
+					dec.Header.Flags = dec.Header.Flags.Remove(primitive.HeaderFlagCompressed)
+					if d := gen.Equal(orig, dec, fcheck.Ignore); d != "" {
+						c.Violation(map[string]string{"kind": "spec-bytes(compressed body)-misread", "compression": name, "source": how}, fmt.Sprintf("%s: specification-formatted frame with a literal-only %s body (%s) decodes to a different frame: %s", cs.Name, name, how, d), cs.Name)
+						break
+					}
+				}
+			}
 		}
 		altNames := []string{"spec-bytes", "spec-bytes(no global table spec)"}
 		if len(alts) == 1 {
